@@ -479,8 +479,9 @@ harness!(c13_q_any_value_u64_beyond_i64, 42, [scalar_case::<U64_MAX, false>()]);
 harness!(c13_q_any_value_128_bit, 42, [scalar_case::<I128_MIN, false>(), scalar_case::<U128_MAX, false>()]);
 harness!(c13_w_any_value_scalars, 8, [scalar_case::<I64, true>()]);
 // structured values: see `case` — measured not to fit; thorough tier only
-harness!(c13_t_any_value_text_keys_depth1, 17, [case::<1, false, false, false>()]);
-harness!(c13_t_any_value_any_keys_depth1, 17, [case::<1, true, false, false>()]);
+// NOT REGISTERED (`c13_x_*`): symbolic token shapes give no verdict in 1200 s (the concrete shape tables above are what is decided)
+harness!(c13_x_any_value_text_keys_depth1, 17, [case::<1, false, false, false>()]);
+harness!(c13_x_any_value_any_keys_depth1, 17, [case::<1, true, false, false>()]);
 
 /// Structured values of CONCRETE shape (a table of token sequences; every arm of a harness runs
 /// one row, so nothing about the shape is symbolic inside an arm: ~6 s per arm instead of > 15 min
